@@ -55,12 +55,15 @@ def flagged_spec(rootname, unc):
     return spec
 
 
-def run(rootname, unc, hist, twin):
+def run(rootname, unc, hist, twin, warm=False):
     """Run hist on the model with cells in `unc` uncached (twin: all cached, flag ops dropped)."""
     reset_world()
     m, _ = O.build_from_spec(flagged_spec(rootname, [] if twin else unc))
     obs, edit_obs = [], []
     viols = []
+    if warm:        # start from the state in which every probe has been evaluated under this assignment
+        for p in ROOTS[rootname]["probes"]:
+            obs.append(O.apply_impl(m, p))
     for op in hist:
         if op["op"] == "set_cached":
             if twin:
@@ -123,18 +126,18 @@ def ever_uncached(unc, hist):
     return s
 
 
-def run_history(rootname, unc, hist):
+def run_history(rootname, unc, hist, warm=False):
     unc = [tuple(u) for u in unc]
-    case = {"root": rootname, "uncached": [list(u) for u in unc], "history": hist}
-    canon, obs, eobs, probes, vs = run(rootname, unc, hist, twin=False)
+    case = {"root": rootname, "uncached": [list(u) for u in unc], "history": hist, "warm": warm}
+    canon, obs, eobs, probes, vs = run(rootname, unc, hist, twin=False, warm=warm)
     viols = [{"clause": c, "case": case, "observed": o, "expected": e} for c, o, e in vs]
     info = {"compared": 0}
     if assigned_cells(hist) & ever_uncached(unc, hist):
         return canon, viols, digest([obs, probes]), info
-    hkey = (rootname, json.dumps([op for op in hist if op["op"] != "set_cached"], sort_keys=True))
+    hkey = (rootname, warm, json.dumps([op for op in hist if op["op"] != "set_cached"], sort_keys=True))
     tw = _twin_memo.get(hkey)
     if tw is None:
-        _, tobs, teobs, tprobes, _ = run(rootname, unc, hist, twin=True)
+        _, tobs, teobs, tprobes, _ = run(rootname, unc, hist, twin=True, warm=warm)
         tw = (tobs, teobs, tprobes)
         if len(_twin_memo) > 100000:
             _twin_memo.clear()
@@ -170,7 +173,8 @@ def work_items(tier, seed):
     items = [{"special": "unhashable"}]
     for name in ROOTS:
         for unc in assignments(name, tier):
-            items.append({"root": name, "uncached": [list(u) for u in unc]})
+            items.append({"root": name, "uncached": [list(u) for u in unc], "warm": False})
+            items.append({"root": name, "uncached": [list(u) for u in unc], "warm": True})
     return items
 
 
@@ -211,8 +215,10 @@ def run_item(item, tier):
     alphabet = r["edits"] + r["evals"]
     stats = {"compared": 0, "edit_diverged": 0}
 
+    warm = item.get("warm", False)
+
     def rh(h):
-        c, v, d, info = run_history(name, unc, h)
+        c, v, d, info = run_history(name, unc, h, warm)
         stats["compared"] += info.get("compared", 0)
         stats["edit_diverged"] += info.get("edit_diverged", 0)
         return c, v, d, info
@@ -221,7 +227,7 @@ def run_item(item, tier):
         last = hist[-1] if hist else None
         return [op for op in alphabet if op != last]
     res = bfs.explore(rh, enabled, DEPTH[tier])
-    res.samples = [{"root": name, "uncached": unc, "history": h} for h in res.samples[:1]]
+    res.samples = [{"root": name, "uncached": unc, "history": h, "warm": warm} for h in res.samples[:1]]
     out = res.as_item_result()
     out["counts"].update(stats)
     return out
@@ -231,7 +237,7 @@ def check_case(case):
     if case.get("special") == "unhashable":
         return unhashable_item()["violations"]
     _twin_memo.clear()
-    return run_history(case["root"], case["uncached"], case["history"])[1]
+    return run_history(case["root"], case["uncached"], case["history"], case.get("warm", False))[1]
 
 
 def shrink_candidates(case):
@@ -242,13 +248,18 @@ def shrink_candidates(case):
         yield dict(case, history=h[:i] + h[i + 1:])
     for i in range(len(case["uncached"])):
         yield dict(case, uncached=case["uncached"][:i] + case["uncached"][i + 1:])
+    if case.get("warm"):
+        yield dict(case, warm=False)
 
 
 def script(case):
     if case.get("special"):
         return "# see mxmc/drivers/c09.py unhashable_item()"
     spec = flagged_spec(case["root"], [tuple(u) for u in case["uncached"]])
-    lines = [O.history_script(spec, case["history"]), "# probes:"]
+    pre = O.spec_to_python(spec)
+    if case.get("warm"):
+        pre += "\n" + "\n".join(O.op_to_python(p) for p in ROOTS[case["root"]]["probes"])
+    lines = [pre, "\n".join(O.op_to_python(o) for o in case["history"]), "# probes:"]
     lines += [O.op_to_python(p) for p in ROOTS[case["root"]]["probes"]]
     lines.append("# expected: the same printed values as with every is_cached=True and no is_cached assignments")
     return "\n".join(lines)
